@@ -16,6 +16,11 @@ func cmdDump(args []string) int {
 	if len(args) > 1 {
 		repo = args[1]
 	}
+	if bf := os.Getenv("THUNDERLINT_BASELINE"); bf != "" {
+		an.BaselineFile = bf
+	} else if _, err := os.Stat("/verif/baseline_funcs.txt"); err == nil {
+		an.BaselineFile = "/verif/baseline_funcs.txt"
+	}
 	p, err := an.Load(repo, nil, "")
 	if err != nil {
 		fmt.Println(err)
